@@ -816,7 +816,7 @@ def op_strategy(draw, weighted, kinds, t_strategy=None, clear=True):
 
 @st.composite
 def histories(draw, max_steps, kinds=None, t_strategy=None, clear=True,
-              universe_kinds=("ints", "strs", "range", "ints"), init_t_strategy=None):
+              universe_kinds=("ints", "strs", "range", "ints", "floats"), init_t_strategy=None):
     kinds = kinds or KINDS
     weighted = draw(st.booleans())
     universe = draw(S.universes(min_size=3, max_size=8, kinds=universe_kinds))
